@@ -20,7 +20,85 @@ use crate::refmodel::format::{build_header, decode_archive, encode_dict, EncodeS
 use crate::scen;
 use crate::simio::SimFile;
 
+/// Every stored chunk of an archive is damaged, and the archive has a number of chunks on the
+/// edges of what an exit status can carry (255, 256, 257, 512): however the clone accounts for
+/// what it found, it must not end with status 0 (S04-B: the count of damaged chunks as the exit
+/// status). `bita clone` through the repository's own main(), local or HTTP.
+fn mass_damage(ctx: &mut Ctx) {
+    let n_chunks = *gen::t(|t| t.pick(&[256usize, 256, 255, 257, 512, 1, 7]));
+    let size = *gen::t(|t| t.pick(&[8usize, 16, 33]));
+    let mut source = vec![0u8; n_chunks * size];
+    simkit::prng::Rng::new(gen::t(|t| t.seed64())).fill(&mut source);
+    let source = Arc::new(source);
+    let mut spec = scen::gen_compress_spec(false, false);
+    spec.cfg = gen::Cfg { algo: gen::Algo::Fixed, window: 0, min: 0, max: size, bits: 0, avg: size };
+    spec.comp = gen::Comp::None;
+    spec.hash_len = *gen::t(|t| t.pick(&[64usize, 8, 16]));
+    spec.buffers = gen::gen_buffers();
+    spec.metadata.clear();
+    scen::draw_schedule();
+    let made = scen::compress_lib(&spec, source.clone(), None);
+    if !made.outcome.is_success() {
+        return;
+    }
+    let Ok(ra) = decode_archive(&made.archive) else { return };
+    if ra.dict.descriptors.len() != n_chunks {
+        return; // two equal random chunks: not the count this scenario is about
+    }
+    let mut presented = made.archive.clone();
+    for (i, b) in presented[ra.header_len..].iter_mut().enumerate() {
+        *b ^= 0x5a ^ (i as u8 & 1);
+    }
+    let http = gen::chance(1, 3);
+    let seed_output = gen::chance(1, 4);
+    scen::quiet(|| {
+        let _ = std::fs::remove_file("out.bin");
+        let _ = std::fs::remove_file("a.cba");
+    });
+    if seed_output {
+        scen::put_file("out.bin", &vec![0x11u8; gen::draw(source.len() as u32 + 1) as usize]);
+    }
+    let server = if http {
+        Some(scen::serve(Arc::new(presented.clone())))
+    } else {
+        scen::put_file("a.cba", &presented);
+        None
+    };
+    scen::set_stdin(None);
+    scen::draw_schedule();
+    let opts = scen::CloneOpts { http, seed_output, buffers: gen::gen_buffers(), retries: if http { gen::draw(2) } else { 0 }, ..Default::default() };
+    let r = scen::run(&scen::clone_args("a.cba", "out.bin", &opts));
+    if server.is_some() {
+        crate::net::uninstall();
+    }
+    let out = scen::get_file("out.bin").unwrap_or_default();
+    let desc = json!({"mode": "mass-damage", "chunks": n_chunks, "chunk_size": size, "hash_length": spec.hash_len, "transport": if http { "http" } else { "local" }, "seed_output": seed_output, "outcome": r.outcome.short()});
+    if ctx.want_sample {
+        ctx.verdict.sample = Some(desc.clone());
+    }
+    simkit::count("fault:EveryChunkDamaged");
+    match &r.outcome {
+        Outcome::Success => {
+            if out != **source {
+                ctx.fail("wrong-output-accepted:mass-damage", format!("all {} stored chunks are damaged, the clone reported success and the output is not the source; {}", n_chunks, desc));
+                return;
+            }
+        }
+        Outcome::Error(_) | Outcome::Usage(_) => simkit::count("corruption-detected"),
+        Outcome::Panic(_) => simkit::count("panic-on-corruption(C15)"),
+        other => {
+            ctx.fail(&format!("corrupt-outcome:{}", other.class()), format!("the clone of an archive whose chunks are all damaged ended with {}; {}", other.short(), desc));
+            return;
+        }
+    }
+    ctx.verdict.nontrivial = true;
+    ctx.verdict.shape = (n_chunks as u64) << 8 ^ size as u64 ^ ((http as u64) << 40) ^ (0xd << 50);
+}
+
 pub fn run(ctx: &mut Ctx) {
+    if gen::chance(1, 25) {
+        return mass_damage(ctx);
+    }
     if gen::chance(1, 3) {
         enumerate(ctx);
     } else {
